@@ -166,7 +166,8 @@ Proof. exact rebuild_same_for_validation. Qed.
 (** ... and therefore answers every schema lookup of the validator the way the original does for
     the request.  The lookups are C13's ([FM.ask], coq/Feat/FeaturesModel.v: root types, type by
     name, kind, GetField, possible types, enum values, input fields, directive by name — the
-    validator's view [FM.in_view_validator]); [to_feat] abstracts a C10 definition to a C13 schema,
+    validator's view [FM.in_view_validator] — and the executor's by-name lookup, abstract-type
+    candidates and doesFragmentTypeApply — [FM.in_view_executor]); [to_feat] abstracts a C10 definition to a C13 schema,
     [registered S] is [S] with the types schema.New registers; [ans_eq] compares answers as finite
     maps / sets (what comes out of a Go map has no order) and without the feature annotations and
     the resolver tag, which a rebuilt definition cannot carry.  The rebuilt definition is asked
@@ -181,7 +182,7 @@ Proof. exact rebuild_same_for_validation. Qed.
     With C13_noninterference in mind: a consumer that sees the schema only through these lookups
     and does not depend on map order computes the same on R and on (S, F).  What stays outside:
     the validator itself (C04's model), the presence of argument defaults (not part of C13's
-    lookups; it is part of [canon], previous theorem), the executor's and introspection's views. *)
+    lookups; it is part of [canon], previous theorem), introspection's own listings (QIntro*). *)
 Theorem C10_rebuild_same_lookups : forall S F r,
   depth_ok S = true -> interfaces_declared_once S = true -> locations_known S = true ->
   refs_defined S = true -> gating_nested S = true -> roots_visible S F = true ->
@@ -189,16 +190,16 @@ Theorem C10_rebuild_same_lookups : forall S F r,
   NoDup (map fst (types S)) -> FM.schema_ok (to_feat (registered S)) = true ->
   introspect (print_default S) S F = IntroOk r ->
   exists R, rebuild (map_defaults dflt_text r) = Some R /\
-    forall G q, FM.in_view_validator q = true ->
+    forall G q, FM.in_view_validator q || FM.in_view_executor q = true ->
       (forall h, In h (FM.handle_args q) -> FS.visible (to_feat (registered S)) F h = true) ->
       ans_eq (FM.ask FM.fixed (to_feat R) G q) (FM.ask FM.fixed (to_feat (registered S)) F q).
 Proof. exact rebuild_same_lookups_full. Qed.
 
 (** two C13 schemas that are the same up to map order and feature annotations ([fsim]) answer
-    every lookup of the validator's view alike for requests that see everything in them *)
+    every lookup of the validator's and the executor's view alike for requests that see everything in them *)
 Theorem C10_similar_schemas_answer_alike : forall A B GA GB,
   fsim A B -> all_visible A GA -> all_visible B GB ->
-  forall q, FM.in_view_validator q = true -> ans_eq (FM.ask FM.fixed A GA q) (FM.ask FM.fixed B GB q).
+  forall q, FM.in_view_validator q || FM.in_view_executor q = true -> ans_eq (FM.ask FM.fixed A GA q) (FM.ask FM.fixed B GB q).
 Proof. exact ask_sim. Qed.
 
 (** KNOWN (key rebuilt-scalar-accepts-any-literal): [scalars_accept_all] cannot be dropped.  With
